@@ -11,7 +11,8 @@ MISMATCH = {1: "outputs", 2: "peer snapshot", 3: "index table", 4: "clock readin
 HIST = ["dropped_length", "dropped_type", "mac1_fails", "static_does_not_open", "unknown_initiator", "timestamp_does_not_open",
         "replay_ts_not_newer", "flood", "initiation_accepted", "response_unaddressed", "response_wrong_state",
         "transcript_fails", "response_accepted", "tun_initiation", "tun_spacing_blocks", "tun_transport", "shift_hook",
-        "restart", "ambiguous_flood_steps", "tun_unknown_peer"]
+        "restart", "ambiguous_flood_steps", "tun_unknown_peer", "valid_mac1_under_load_cookie_reply",
+        "under_load_toggles", "gate_or_mac1_fails_under_load"]
 
 
 def executed(case):
@@ -37,9 +38,13 @@ class Prop:
             "altered by single-bit flips (quick: 200 sampled positions, thorough: all 148*8+92*8), every length change -3..+3, every field "
             "substitution with and without recomputed MAC1, type substitutions, MAC1 for another key, wrong responder, stranger, wrong psk, "
             "replays and reorderings, timestamps older/equal/newer/extreme, second initiation back-to-back vs after 60 ms, responses to a "
-            "superseded initiation, responses twice, reflected device initiations, random mixtures; restart (Down/Up) only in the dedicated "
-            "F7 scenario; non-trivial = scenario with at least one accepted and one inert handshake message; distinct by content hash")
-    assumptions = ["device not under load (the no-reply clauses; under load the only permitted reaction is C10's cookie reply)",
+            "superseded initiation, responses twice, reflected device initiations, random mixtures; under load (VerifForceUnderLoad): "
+            "MAC1-invalid messages (covered/MAC1 bit flips, substitutions, length, type, foreign key) must stay silent, the unaltered one draws "
+            "a cookie reply; receive side across Down/Up: answered initiation, restart, replay of the same bytes / older / equal / newer "
+            "timestamps from several addresses, response to a pre-restart initiation; device-emitted timestamps across a restart only in "
+            "the dedicated F7 scenario; non-trivial = scenario with at least one accepted and one inert handshake message; distinct by content hash")
+    assumptions = ["messages whose MAC1 does not verify (or that fail the size/type gate) must be silent and inert under load too; for messages with a "
+                   "valid MAC1 the no-reply clauses are for a device not under load (under load the cookie reply is C10's business and is only mirrored, not judged)",
                    "one datagram at a time with quiescence in between (no two initiations of one peer race through the handshake workers)",
                    "instants are not before 1970; tai64n seconds do not wrap (true for every int64 Unix time)",
                    "the 20 ms flood gap is exercised at <5 ms and >40 ms; steps whose measured gap falls in [5 ms, 40 ms] accept either outcome (counted)",
@@ -58,7 +63,7 @@ class Prop:
         return meta, files
 
     def generate(self, seed, tier, mult):
-        n = (120 if tier == "quick" else 700) * mult
+        n = (150 if tier == "quick" else 800) * mult
         f7 = 20 if tier == "quick" else 60
         shards = 8 if tier == "quick" else 32
         exe = vlib.build_go("c06")
